@@ -12,6 +12,7 @@ import (
 	"runtime"
 	"strconv"
 	"sync"
+	"time"
 
 	"github.com/go-openapi/runtime/verifrt"
 
@@ -58,6 +59,18 @@ func WorkerMain(fn ScenarioFunc) {
 	atoi := func(s string) int { v, _ := strconv.Atoi(s); return v }
 	res := &Result{Scenario: a[0], FailN: map[string]int{}, Outcomes: map[string]int64{}}
 	o := verifrt.Options{PreemptBound: atoi(a[1]), DataBound: atoi(a[2]), Shard: atoi(a[3]), Shards: atoi(a[4])}
+	if len(a) > 5 {
+		o.MaxFree = atoi(a[5])
+	}
+	if d, err := strconv.ParseInt(os.Getenv("VERIF_DEADLINE_UNIX"), 10, 64); err == nil && d > 0 {
+		// the run's internal time budget: a shard that reaches it stops and reports Stopped (exhaustive:false)
+		deadline := time.Unix(d, 0)
+		n := 0
+		o.Stop = func() bool {
+			n++
+			return n%64 == 0 && time.Now().After(deadline)
+		}
+	}
 	func() {
 		defer func() {
 			if e := recover(); e != nil {
@@ -79,6 +92,11 @@ func RunSharded(scenario string, pb, db int) (*Result, error) {
 // RunShardedN is RunSharded with a stated number of worker processes (small searches are
 // better run several at a time with few workers each).
 func RunShardedN(scenario string, pb, db, n int) (*Result, error) {
+	return RunShardedFree(scenario, pb, db, n, 0)
+}
+
+// RunShardedFree additionally bounds the non-default free scheduling choices (0 = unlimited).
+func RunShardedFree(scenario string, pb, db, n, maxFree int) (*Result, error) {
 	if n < 1 || (pb == 0 && db == 0) {
 		n = 1
 	}
@@ -89,7 +107,7 @@ func RunShardedN(scenario string, pb, db, n int) (*Result, error) {
 		wg.Add(1)
 		go func(i int) {
 			defer wg.Done()
-			cmd := exec.Command(os.Args[0], "e3worker", scenario, strconv.Itoa(pb), strconv.Itoa(db), strconv.Itoa(i), strconv.Itoa(n))
+			cmd := exec.Command(os.Args[0], "e3worker", scenario, strconv.Itoa(pb), strconv.Itoa(db), strconv.Itoa(i), strconv.Itoa(n), strconv.Itoa(maxFree))
 			cmd.Env = append(os.Environ(), "GOMAXPROCS=1")
 			var out, errb bytes.Buffer
 			cmd.Stdout, cmd.Stderr = &out, &errb
